@@ -5,6 +5,8 @@ from __future__ import annotations
 import random
 
 from .. import gen
+
+gen.WIDE_RATE = 0.01   # wide (~100 operation) instances are costly here: a small share
 from ..drive import Run, gen_history_case
 
 ID = "C10"
@@ -416,14 +418,24 @@ def run_case(ctx, case):
             # inside its update(): observers unsubscribed before their turn receive nothing,
             # everybody else is notified exactly once, in order
             victim = actor = None
+            newcomer = []
             if len(recs_now) >= 2 and rng.random() < 0.15:
                 actor = rng.choice(recs_now)
                 victim = rng.choice(recs_now)
 
+                swap_in = rng.random() < 0.4
+
                 def act(actor=actor, victim=victim):
                     if victim in d.subscribers:
                         d.unsubscribe(victim)
+                        if swap_in:
+                            # ... and a replacement is subscribed in the same breath (the number of
+                            # subscribers is unchanged); it is notified from the next dispatch on
+                            newcomer.append(add_recorder())
+                            subs.remove(newcomer[0])   # joins the model after this round
                 actor.pending_action = act
+                if swap_in:
+                    ctx.count("mid_round_swaps")
                 ctx.count("mid_round_unsubscriptions")
                 script.append(("mid_round_unsub", labels[id(actor)], labels[id(victim)]))
             n0 = len(log)
@@ -444,6 +456,8 @@ def run_case(ctx, case):
                     if victim is hist:
                         pass
                     actor = None
+            if newcomer:
+                subs.append(newcomer[0])
             if model_hist is not None:
                 model_hist.append(o)
             script.append(("dispatch", o, m))
